@@ -34,6 +34,13 @@ func main() {
 		}
 		return
 	}
+	if name == "case" {
+		if err := runCaseDebug(os.Args[2:]); err != nil {
+			fmt.Fprintln(os.Stderr, err)
+			os.Exit(3)
+		}
+		return
+	}
 	if name == "extract" {
 		if err := runExtract(os.Args[2:]); err != nil {
 			fmt.Fprintln(os.Stderr, "extract error:", err)
